@@ -160,6 +160,28 @@ where
     }
 }
 
+/// Verification hooks: construct a forest in, and observe, an arbitrary
+/// internal state. Compiled only with
+/// `--cfg smlxl_storage_layout_extractor_verif`.
+#[cfg(smlxl_storage_layout_extractor_verif)]
+impl<Value, Data> DisjointSet<Value, Data>
+where
+    Value: Clone + Debug + Eq + Hash + PartialEq + ToUniqueIndex,
+    Data: Combine + Debug + Eq + PartialEq,
+{
+    /// Builds a forest directly from its representative and data maps.
+    #[must_use]
+    pub fn verif_from_parts(reps: VectorMap<Value, Value>, data: VectorMap<Value, Data>) -> Self {
+        Self { reps, data }
+    }
+
+    /// Gets the representative and data maps of the forest.
+    #[must_use]
+    pub fn verif_parts(&self) -> (&VectorMap<Value, Value>, &VectorMap<Value, Data>) {
+        (&self.reps, &self.data)
+    }
+}
+
 impl<Value, Data> Default for DisjointSet<Value, Data>
 where
     Value: Clone + Debug + Eq + Hash + PartialEq + ToUniqueIndex,
